@@ -103,6 +103,21 @@ class Abstract(Sort):
         self.name = name
 
 
+class Const(Sort):
+    """a parameter fixed to a concrete python value in this (case of the) contract"""
+    def __init__(self, value):
+        self.value = value
+        self.name = f'Const({value!r})'
+
+
+class Rec(Sort):
+    """immutable record / tuple with named components as ONE SMT value (usable as a sequence element);
+    python side: a tuple in field order"""
+    def __init__(self, name, **fields):
+        self.name = name
+        self.fields = fields
+
+
 class TupleS(Sort):
     def __init__(self, *elems):
         self.elems = elems
@@ -123,7 +138,7 @@ class Contract:
                  loops=None, modifies=(), ghosts=None, inline=False, trusted=False,
                  covers=(), native=None, result=None, note='', exact_raises=True,
                  dropped=(), opaque=False, floor=1, name=None, pure_result=False,
-                 assumes=(), variant='', uses=(), abstract_classes=None, reveal=()):
+                 assumes=(), variant='', uses=(), abstract_classes=None, reveal=(), cases=None, yields=None, then_call=None, pure_expr=None, shards=1):
         self.prop = prop
         self.file = file
         self.qual = qual
@@ -149,6 +164,11 @@ class Contract:
         self.assumes = list(assumes)        # extra assumptions (each listed in the evidence)
         self.uses = list(uses)              # instances of proved lemmas: (lemma name, {var: text})
         self.abstract_classes = abstract_classes or {}
+        self.shards = shards                # discharge the obligations of this function in that many parallel workers
+        self.yields = yields                # element sort of the ghost sequence of yielded values (generators)
+        self.then_call = then_call          # (list of ghost param names): the returned closure is called on them; ensures see `result2`
+        self.pure_expr = pure_expr          # text E such that `result == E` is an ensures clause: usable in pure contexts (quantified callers)
+        self.cases = cases or {}            # param -> list of concrete values: verification is split per value (must be exhaustive under requires)
         self.reveal = list(reveal)          # opaque spec functions whose definition this proof needs
         self.variant = variant              # several contracts (input classes) on one function
         if variant and name is None:
@@ -162,7 +182,7 @@ class Contract:
 class Lemma:
     """forall vars. requires => goal, proved by induction schema given as explicit
     (base, step) obligations or directly.  All texts are Python over spec functions."""
-    def __init__(self, prop, name, vars, goal, requires=(), ih=(), measure=None, uses=(), note='', cases=(), reveal=()):
+    def __init__(self, prop, name, vars, goal, requires=(), ih=(), measure=None, uses=(), note='', cases=(), reveal=(), hints=()):
         self.prop = prop
         self.name = name
         self.vars = vars                    # name -> Sort
@@ -172,6 +192,7 @@ class Lemma:
         self.measure = measure              # text of an integer measure (clamped at 0) — well-founded induction
         self.uses = list(uses)              # instances of other lemmas: (name, {var: text})
         self.reveal = list(reveal)
+        self.hints = list(hints)            # intermediate facts: each is proved first (own obligation), then assumed for the goal
         self.cases = list(cases)            # optional case split texts (each case a separate obligation)
         self.note = note
 
@@ -191,6 +212,9 @@ class Registry:
     def lookup(self, file, qual):
         """the contract callers see (the main variant)"""
         return self.contracts.get((file, qual, ''))
+
+    def candidates(self, file, qual):
+        return [c for (f, q, v), c in self.contracts.items() if f == file and q == qual]
 
     def lemma(self, *a, **k):
         l = Lemma(*a, **k)
